@@ -522,11 +522,11 @@ func scheduleDocs() []string {
 		return "[" + strings.Join(it, ",") + "](List)"
 	}
 	return []string{
-		"[1](List)",                      // few tokens
-		long(5),                          // 15 tokens incl. EOF
-		long(6),                          // around the queue capacity
+		"[1](List)", // few tokens
+		long(5),     // 15 tokens incl. EOF
+		long(6),     // around the queue capacity
 		long(7),
-		long(15),                         // 34+ tokens: the scanner blocks on a full queue
+		long(15),                              // 34+ tokens: the scanner blocks on a full queue
 		"[\n    1: 2\n    3: 4\n](Catalog)\n", // push-back: a multi-line list whose first item starts like an association
 		"[\n    1\n    [\n        2\n    ](Set)\n](List)\n",
 	}
